@@ -196,8 +196,10 @@ example : bitsOf (ascii "123456788")
     Missing for the full property (`C08_burst_statement` below, which is false, see the counterexample):
     the hypothesis is about the *re-encoding* `c'.zeroed.enc` of the decoded fields, because that is what
     the code checks. It coincides with the received octets only when those are the canonical
-    encoding of what they decode to (D20: `urlsplit` normalisation of EIDs; outside the model also the
-    lenient dissector: uint in a bstr slot, ignored surplus array items, CRC type flipped to 0).
+    encoding of what they decode to (D20: `bytes(int)` in byte-string slots, the remaining `urlsplit`
+    normalisations of non-RFC EIDs; outside the model also the
+    lenient dissector: ignored surplus array items, CRC type flipped to 0, `true == 1`; the uint in a
+    bstr slot is modelled and is the witness of `C08_burst_counterexample`).
     Bursts that straddle the boundary between the covered fields and the CRC value are not covered
     either (the CRC value is stored big-endian while the CRC is reflected, so the block is not a
     polynomial code word); corruption confined to the CRC value is `C08_crcfield`. -/
@@ -262,18 +264,21 @@ def C08_burst_statement : Prop :=
     (∀ c ∈ b.blocks, c.crcType ≠ 0) → oneBitInside b.enc r 0 = true →
     decodeBundle r = some b' → b'.checkAllCrc ≠ []
 
-/-- D20 witness: CRC-32C primary block with report-to `dtn://src/`; flipping one bit of the final
-    `/` (0x2f → 0x3f `?`) still decodes, and the decoded bundle passes every CRC check because the
-    check runs over the re-encoding, in which `urlsplit` + the field code restore `//src/`. -/
+/-- D20 witness (still reproduces on the repository after the D19 fix): an extension block (type
+    192, CRC-16) with empty block-type-specific data. Flipping one bit of its `40` (empty bstr) gives
+    `00` (unsigned 0); `BstrField.m2i` turns that into `bytes(0) = b''`, the decoded bundle is the
+    original one, every CRC check — run over the re-encoding — passes. -/
 def d20Orig : Bundle :=
   { primary := { flags := 0x64000, crcType := 2, dest := .dtn (ascii "//node/svc"),
                  src := .dtn (ascii "//src/"), rpt := .dtn (ascii "//src/"), ts := ⟨1000, 5⟩,
                  lifetime := 300000, crc := some [0xb1, 0x44, 0x3e, 0x22] },
-    blocks := [ { typeCode := 1, blockNum := 1, crcType := 1, btsd := some (ascii "hello"),
+    blocks := [ { typeCode := 192, blockNum := 2, crcType := 1, btsd := some [],
+                  crc := some [0x9e, 0x97] },
+                { typeCode := 1, blockNum := 1, crcType := 1, btsd := some (ascii "hello"),
                   crc := some [0x4b, 0xf3] } ] }
 
-def d20Corrupted : Bytes :=
-  ({ d20Orig with primary := { d20Orig.primary with rpt := .dtn (ascii "//src?") } } : Bundle).enc
+/-- octet 61 (`40`, the empty BTSD of block 2) with bit 6 flipped -/
+def d20Corrupted : Bytes := d20Orig.enc.set 61 0x00
 
 /- The kernel evaluates the bitwise CRC of the witness in 8-octet pieces (a single 57-octet fold
    exceeds its recursion depth); the pieces are chained with `crcReg_append`. -/
@@ -284,6 +289,8 @@ private theorem d20_prim_3 : crcReg (0x82F63B78#32) (0xEA5FF38A#32) [47, 47, 115
 private theorem d20_prim_4 : crcReg (0x82F63B78#32) (0x47266B1F#32) [102, 47, 47, 115, 114, 99, 47, 130] = 0xA16FC565#32 := by decide +kernel
 private theorem d20_prim_5 : crcReg (0x82F63B78#32) (0xA16FC565#32) [25, 3, 232, 5, 26, 0, 4, 147] = 0x6A54BEC2#32 := by decide +kernel
 private theorem d20_prim_6 : crcReg (0x82F63B78#32) (0x6A54BEC2#32) [224, 68, 0, 0, 0, 0] = 0x4EBBC1DD#32 := by decide +kernel
+private theorem d20_ext_0 : crcReg (0x8408#16) (0xFFFF#16) [134, 24, 192, 2, 0, 1, 64, 66] = 0xADAD#16 := by decide +kernel
+private theorem d20_ext_1 : crcReg (0x8408#16) (0xADAD#16) [0, 0] = 0x6168#16 := by decide +kernel
 private theorem d20_pay_0 : crcReg (0x8408#16) (0xFFFF#16) [134, 1, 1, 0, 1, 69, 104, 101] = 0x8D6F#16 := by decide +kernel
 private theorem d20_pay_1 : crcReg (0x8408#16) (0x8D6F#16) [108, 108, 111, 66, 0, 0] = 0xB40C#16 := by decide +kernel
 
@@ -292,12 +299,14 @@ private theorem d20_prim_enc : d20Orig.primary.zeroed.enc =
     ++ ([47, 47, 115, 114, 99, 47, 130, 1] ++ ([102, 47, 47, 115, 114, 99, 47, 130]
     ++ ([25, 3, 232, 5, 26, 0, 4, 147] ++ [224, 68, 0, 0, 0, 0]))))) := by decide +kernel
 
-private theorem d20_pay_enc (c : Canonical) (h : c ∈ d20Orig.blocks) :
-    c.crcType = 1 ∧ c.crc = some [0x4b, 0xf3] ∧
-    c.zeroed.enc = [134, 1, 1, 0, 1, 69, 104, 101] ++ [108, 108, 111, 66, 0, 0] := by
-  simp only [d20Orig, List.mem_singleton] at h
-  subst h
-  decide +kernel
+private theorem d20_blk_enc (c : Canonical) (h : c ∈ d20Orig.blocks) :
+    c.crcType = 1 ∧
+    ((c.crc = some [0x9e, 0x97] ∧ c.zeroed.enc = [134, 24, 192, 2, 0, 1, 64, 66] ++ [0, 0])
+     ∨ (c.crc = some [0x4b, 0xf3] ∧ c.zeroed.enc = [134, 1, 1, 0, 1, 69, 104, 101] ++ [108, 108, 111, 66, 0, 0])) := by
+  simp only [d20Orig, List.mem_cons, List.not_mem_nil, or_false] at h
+  rcases h with rfl | rfl
+  · exact ⟨rfl, Or.inl ⟨rfl, by decide +kernel⟩⟩
+  · exact ⟨rfl, Or.inr ⟨rfl, by decide +kernel⟩⟩
 
 theorem C08_d20_checks : d20Orig.checkAllCrc = [] := by
   rw [checkAllCrc_nil_iff]
@@ -309,10 +318,13 @@ theorem C08_d20_checks : d20Orig.checkAllCrc = [] := by
       d20_prim_6]
     decide
   · intro c hc
-    obtain ⟨h1, h2, h3⟩ := d20_pay_enc c hc
-    simp only [Canonical.checkCrc, h1, h2, Canonical.crcValue, crcOf, crc16x25, crc, h3,
-      crcReg_append, d20_pay_0, d20_pay_1]
-    decide
+    obtain ⟨h1, h | h⟩ := d20_blk_enc c hc
+    · simp only [Canonical.checkCrc, h1, h.1, Canonical.crcValue, crcOf, crc16x25, crc, h.2,
+        crcReg_append, d20_ext_0, d20_ext_1]
+      decide
+    · simp only [Canonical.checkCrc, h1, h.1, Canonical.crcValue, crcOf, crc16x25, crc, h.2,
+        crcReg_append, d20_pay_0, d20_pay_1]
+      decide
 
 theorem C08_burst_counterexample : ¬ C08_burst_statement := by
   intro h
@@ -322,8 +334,15 @@ theorem C08_burst_counterexample : ¬ C08_burst_statement := by
 
 /-- the witness octets (replayed on the implementation by harness/props/c08.py `check_d20`) -/
 example : toHex d20Orig.enc =
-    "9f89071a000640000282016a2f2f6e6f64652f7376638201662f2f7372632f8201662f2f7372632f821903e8051a000493e044b1443e2286010100014568656c6c6f424bf3ff" := by
+    "9f89071a000640000282016a2f2f6e6f64652f7376638201662f2f7372632f8201662f2f7372632f821903e8051a000493e044b1443e228618c002000140429e9786010100014568656c6c6f424bf3ff" := by
   decide +kernel
+example : d20Orig.enc[61]? = some 0x40 ∧ d20Corrupted[61]? = some 0x00 := by decide +kernel
+
+/-- The former witness (one-bit flip `/`→`?` at the end of `dtn://src/`) is detected since the D19
+    fix: the decoded bundle re-encodes with `//src/?`, so the CRC-32C check of the primary block
+    fails in the model exactly as in the repository. -/
+example : (decodeBundle (({ d20Orig with primary := { d20Orig.primary with rpt := .dtn (ascii "//src?") } }
+    : Bundle).enc)).map (fun b => b.primary.rpt) = some (.dtn (ascii "//src/?")) := by decide +kernel
 
 /-! ### Facts of the source -/
 
